@@ -349,6 +349,17 @@ class Check:
             ax = {}
             if built:
                 ax, out = audit([m for m, _ in built], [t for _, ths in built for t in ths], tag=self.prop)
+            if self.tier == "thorough" and built:
+                # independent re-check of the compiled modules (and everything they import) by leanchecker
+                t0 = time.time()
+                r = _run(["lake", "env", "leanchecker"] + [m for m, _ in built], cwd=LEAN, timeout=3000)
+                self.notes["leanchecker"] = {"modules": [m for m, _ in built], "rc": r.returncode, "wall_s": round(time.time() - t0, 1),
+                                             "output_tail": (r.stdout + r.stderr)[-400:]}
+                if r.returncode != 0:
+                    for m, ths in built:
+                        for t in ths:
+                            self.broken.append((t, "leanchecker rejects the compiled module"))
+                    built = []
         hits = forbidden_tokens()
         self.notes["forbidden_tokens"] = hits
         for m, ths in built:
